@@ -995,16 +995,21 @@ REEVAL_KINDS = ('exc', 'rec', 'cx', 'trp', 'brems')
 REEVAL_MODEL = dict(exc='ExcitationLine', rec='RecombinationLine', cx='ThermalCXLine', trp='TotalRadiatedPower', brems='Bremsstrahlung')
 
 
-def reeval_state(w, kind, model, st, user_gaunt=None):
-    """evaluate `model.emission` in the plasma's *current* state `st`; returns (obs for K, K line, documented value(s), floor)"""
-    pt, dr = w.Point3D(0.1, 0.0, -0.1), w.Vector3D(0, 0, 1)
+def reeval_state(w, kind, model, st, user_gaunt=None, pt=None, base=0.0, rtol=1e-5):
+    """evaluate `model.emission` at `pt` in the plasma's *current* state `st` (values at that point) into a spectrum
+    prefilled with `base`; returns (obs for K = what was *added*, K line, documented value(s), floor)"""
+    pt, dr = pt or w.Point3D(0.1, 0.0, -0.1), w.Vector3D(0, 0, 1)
     comp, ne, te, par = st['comp'], st['ne'], st['te'], st['par']
     le, lc, tr = st['le'], st['lc'], st['tr']
+    fl = 4e-16 * abs(base)
     if kind in ('exc', 'rec', 'cx'):
         w.RecLS.calls = []
         sp = w.Spectrum(390.0, 520.0, 8)
+        sp.samples[:] = base
         stt, res = call(model.emission, pt, dr, sp)
         got = stt if stt != 'ok' else ('none' if not w.RecLS.calls else float(w.RecLS.calls[-1][0]))
+        if stt == 'ok' and (res is not sp or any(float(x) != base for x in sp.samples)):
+            got = 'spectrum-modified'          # the recording line shape adds nothing: the incoming spectrum must come back as it was
         if kind == 'cx':
             line = 'cx %d %d %d %s %s' % (le, lc, tr, fs([PI, ne, te, par[0], par[1], par[2], par[3]]), sp_tokens(w, comp))
             want = doc_cx(w, par, comp, ne, te, le, lc, tr)
@@ -1014,8 +1019,9 @@ def reeval_state(w, kind, model, st, user_gaunt=None):
         return (got if isinstance(got, str) else [got]), line, want, 0.0
     mn, mx, bins = st['window']
     sp = w.Spectrum(mn, mx, bins)
+    sp.samples[:] = base
     stt, res = call(model.emission, pt, dr, sp)
-    samples = [float(x) for x in sp.samples]
+    samples = [float(x) - base for x in sp.samples]
     guard = not (ne > 0 and te > 0)
     if kind == 'trp':
         has = st['has']
@@ -1024,10 +1030,10 @@ def reeval_state(w, kind, model, st, user_gaunt=None):
         want = doc_trp(w, par, has, comp, ne, te, mn, mx, le, lc)
         if stt == 'ok' and not all(x == samples[0] for x in samples):
             got = 'non-uniform'
-        return (got if isinstance(got, str) else [got]), line, want, 0.0
+        return (got if isinstance(got, str) else [got]), line, want, fl
     g = user_gaunt if user_gaunt is not None else st['gaunt']
     got = stt if stt != 'ok' else ('none' if (guard and not any(samples)) else samples)
-    line = 'be %s %d %s %s' % (fs([PI, ne, te, mn, float(sp.delta_wavelength)]), bins, fs([1e-5] + list(g)), sp_tokens(w, comp))
+    line = 'be %s %d %s %s' % (fs([PI, ne, te, mn, float(sp.delta_wavelength)]), bins, fs([rtol] + list(g)), sp_tokens(w, comp))
     if guard:
         want = [0.0] * bins
     else:
@@ -1035,10 +1041,10 @@ def reeval_state(w, kind, model, st, user_gaunt=None):
         zs, ns = [float(c) for (e, c, n, t) in comp], [n for (e, c, n, t) in comp]
         f = lambda l: doc_brems(gf, zs, ns, ne, te, l)
         want = [bin_average(f, mn + i * (mx - mn) / bins, mn + (i + 1) * (mx - mn) / bins) for i in range(bins)]
-    return got, line, want, 1e-300
+    return got, line, want, 1e-300 + fl
 
 
-def reeval_ok(kind, got, want):
+def reeval_ok(kind, got, want, floor=0.0, rtol=1e-5):
     """S: does the implementation's output equal the documented value for the current state?"""
     if want is None:
         return got == 'RuntimeError'
@@ -1047,8 +1053,8 @@ def reeval_ok(kind, got, want):
             return False
         return (want == 0.0) if not isinstance(want, list) else not any(want)
     if kind == 'brems':
-        return len(got) == len(want) and all(close(a, b, 3e-4, 1e-290) for a, b in zip(got, want))
-    return close(got[0], want, 1e-9, 0.0)
+        return len(got) == len(want) and all(close(a, b, max(3e-4, 30 * rtol), 1e-290 + floor) for a, b in zip(got, want))
+    return close(got[0], want, 1e-9, floor)
 
 
 def run_reeval(ctx, w, K, n):
@@ -1138,6 +1144,206 @@ def run_reeval(ctx, w, K, n):
                          % (name, ' -> '.join(history), 'attached to the plasma' if attached else 'stand-alone', shown, wshown), desc)
                 break
 
+
+# ------------------------------------------------------------------------------------------------------------------
+#  multi-point sequences on one instance over a non-uniform plasma; several live instances evaluated interleaved
+# ------------------------------------------------------------------------------------------------------------------
+def prof_dist(w):
+    """DistributionFunction whose density / temperature are tabulated per point (point i is Point3D(i, 0, 0))"""
+    if not hasattr(w, 'ProfDist'):
+        base = w.Dist.__mro__[1]
+
+        class ProfDist(base):
+            def __init__(self, ns, ts):
+                super().__init__()
+                self.ns, self.ts = ns, ts
+
+            def density(self, x, y, z):
+                return self.ns[int(round(x))]
+
+            def effective_temperature(self, x, y, z):
+                return self.ts[int(round(x))]
+
+            def bulk_velocity(self, x, y, z):
+                return w.Vector3D(0, 0, 0)
+        w.ProfDist = ProfDist
+    return w.ProfDist
+
+
+def rnd_presence(rng, positive, p_pos=0.55, p_zero=0.25):
+    """independently present / exactly absent / negative"""
+    k = rng.random()
+    return positive if k < p_pos else (rng.choice([0.0, 0.0, -0.0]) if k < p_pos + p_zero else -positive * rng.choice([1.0, 0.1]))
+
+
+def build_model(w, kind, le, lc, tr, pl, ad, lineshape='rec', gaunt=None, integrator=None):
+    line = w.Line(w.elements[le], lc, TRANSITIONS[tr])
+    if kind in ('exc', 'rec', 'cx'):
+        kw = dict(lineshape=w.RecLS) if lineshape == 'rec' else {}
+        return getattr(w.cm, REEVAL_MODEL[kind])(line, plasma=pl, atomic_data=ad, **kw)
+    if kind == 'trp':
+        return w.cm.TotalRadiatedPower(w.elements[le], lc, plasma=pl, atomic_data=ad)
+    kw = {}
+    if gaunt is not None:
+        kw['gaunt_factor'] = w.Gaunt(gaunt)
+    if integrator is not None:
+        kw['integrator'] = integrator
+    return w.cm.Bremsstrahlung(plasma=pl, atomic_data=ad, **kw)
+
+
+def run_multipoint(ctx, w, K, n):
+    """(a) one model instance, a sequence of points of a plasma with compact-support / sign-changing profiles, points
+    revisited; the value at a point must not depend on what was evaluated before: = documented expression at that point
+    (S), = model fed that point's values (K), = a fresh instance evaluated only there"""
+    rng = ctx.rng
+    PD = prof_dist(w)
+    for it in range(n):
+        kind = REEVAL_KINDS[it % len(REEVAL_KINDS)]
+        name = REEVAL_MODEL[kind]
+        le = rng.choice([4, 9, 10, 12])
+        lc = rng.randint(0, w.znum(le) - 1)
+        tr = rng.randrange(len(TRANSITIONS))
+        npts = rng.randint(3, 6)
+        keys = [(e, c) for (e, c, _, _) in rnd_composition(w, rng, le, lc, nmax=6)]
+        for need in ((le, lc), (le, lc + 1)):
+            if need not in keys and rng.random() < 0.9:
+                keys.append(need)
+        prof = {}
+        for k_ in keys:
+            n0, t0 = 10 ** rng.uniform(15, 20), 10 ** rng.uniform(0, 3.5)
+            prof[k_] = ([rnd_presence(rng, n0 * rng.choice([1.0, 0.3, 2.0])) for _ in range(npts)],
+                        [rnd_presence(rng, t0, 0.85, 0.08) for _ in range(npts)])
+        ne0, te0 = 10 ** rng.uniform(17, 20), 10 ** rng.uniform(0.5, 3.5)
+        nes = [rnd_presence(rng, ne0 * rng.choice([1.0, 0.5]), 0.8, 0.1) for _ in range(npts)]
+        tes = [rnd_presence(rng, te0 * rng.choice([1.0, 2.0]), 0.85, 0.08) for _ in range(npts)]
+        par = rnd_par(rng)
+        par = (abs(par[0]) or 1e-35,) + par[1:]
+        g = (rng.choice([1.0, 1.5]), rng.choice([0.0, 0.125]), 0.0, 0.0)
+        has = tuple(int(rng.random() < 0.9) for _ in range(3))
+        mn = rng.uniform(200, 600)
+        window = (mn, mn + rng.uniform(1, 300), rng.choice([1, 2, 5]))
+
+        def make_plasma():
+            pl = w.Plasma()
+            pl.electron_distribution = PD(nes, tes)
+            pl.composition = [w.Species(w.elements[e], c, PD(*prof[(e, c)])) for (e, c) in keys]
+            return pl
+        ad = w.MockAD(par, has=has, gaunt=g)
+        model = build_model(w, kind, le, lc, tr, make_plasma(), ad)
+        seq = list(range(npts)) + [rng.randrange(npts) for _ in range(npts + 2)]
+        rng.shuffle(seq)
+        prev = None
+        for step, i in enumerate(seq):
+            comp = [(e, c, prof[(e, c)][0][i], prof[(e, c)][1][i]) for (e, c) in keys]
+            st = dict(comp=comp, ne=nes[i], te=tes[i], par=par, has=has, gaunt=g, le=le, lc=lc, tr=tr, window=window)
+            base = rng.choice([0.0, 0.5, 3.0])
+            pt = w.Point3D(float(i), 0.0, 0.0)
+            got, kline, want, floor = reeval_state(w, kind, model, st, pt=pt, base=base)
+            fresh, _, _, _ = reeval_state(w, kind, build_model(w, kind, le, lc, tr, make_plasma(), w.MockAD(par, has=has, gaunt=g)), st, pt=pt, base=base)
+            desc = dict(model=name, stream='multi-point', point=i, visited_before=seq[:step], incoming_spectrum=base,
+                        line=dict(element=tr_constants.ELEMENT_IDS[le], charge=lc, transition=TRANSITIONS[tr]), rate_par=par, rates_present=has,
+                        gaunt=g, window=window, species=[(tr_constants.ELEMENT_IDS[e], c) for (e, c) in keys],
+                        profiles=dict(ne=nes, te=tes, **{'%s%d' % (tr_constants.ELEMENT_IDS[e], c): prof[(e, c)] for (e, c) in keys}))
+            K.add('multipoint:' + kind, kline, got, desc, floor=floor)
+            ctx.count('multipoint:%s:%s' % (kind, 'error' if (isinstance(got, str) and got not in ('none',)) else 'none' if got == 'none' else 'emits'))
+            ctx.case(key=('multipoint', kind, it, step) if not isinstance(got, str) else None,
+                     sample=desc if (it < 5 and step == 3 and kind == 'brems') else None)
+            same = (got == fresh) if (isinstance(got, str) or isinstance(fresh, str)) else \
+                (len(got) == len(fresh) and all(close(a, b, 1e-12, floor) for a, b in zip(got, fresh)))
+            ok = reeval_ok(kind, got, want, floor)
+            if not ok or not same:
+                shown = got if isinstance(got, str) else got[:3]
+                if reeval_ok(kind, fresh, want, floor) and not ok:
+                    ctx.fail('C03:%s.emission:multi-point:value-depends-on-previously-evaluated-points' % name,
+                             '%s at point %d after visiting %r: %r; a fresh instance gives %r = documented' % (name, i, seq[:step], shown,
+                                                                                                           fresh if isinstance(fresh, str) else fresh[:3]), desc)
+                elif not ok:
+                    ctx.fail('C03:%s.emission:multi-point:differs-from-documented' % name, '%s at point %d: %r, documented %r'
+                             % (name, i, shown, want if not isinstance(want, list) else want[:3]), desc)
+                else:
+                    ctx.fail('C03:%s.emission:multi-point:differs-from-fresh-instance' % name, '%s at point %d after %r: %r, fresh instance %r'
+                             % (name, i, seq[:step], shown, fresh if isinstance(fresh, str) else fresh[:3]), desc)
+                break
+            prev = i
+
+
+def run_multi_instance(ctx, w, K, n):
+    """(b) 2-3 live models of one kind (default-constructed and explicitly configured) on different plasmas / providers,
+    evaluated interleaved: each equals its own documented expression whatever the others did"""
+    from cherab.core.math.integrators import GaussianQuadrature
+    rng = ctx.rng
+    for it in range(n):
+        kind = REEVAL_KINDS[it % len(REEVAL_KINDS)]
+        name = REEVAL_MODEL[kind]
+        k_inst = rng.choice([2, 3])
+        inst = []
+        for j in range(k_inst):
+            le = rng.choice([4, 9, 10, 12])
+            lc = rng.randint(0, w.znum(le) - 1)
+            tr = rng.randrange(len(TRANSITIONS))
+            comp = [(e, c, abs(n_) if rng.random() < 0.85 and n_ != 0 else n_, abs(t) or 1.0) for (e, c, n_, t) in rnd_composition(w, rng, le, lc, nmax=5)]
+            par = rnd_par(rng)
+            par = (abs(par[0]) or 1e-35,) + par[1:]
+            g = (rng.choice([0.75, 1.0, 1.5, 2.0]), rng.choice([0.0, 0.125]), 0.0, 0.0)
+            has = tuple(int(rng.random() < 0.9) for _ in range(3))
+            mn = rng.uniform(200, 600)
+            st = dict(comp=comp, ne=10 ** rng.uniform(17, 20), te=10 ** rng.uniform(0.5, 3.5), par=par, has=has, gaunt=g, le=le, lc=lc, tr=tr,
+                      window=(mn, mn + rng.uniform(1, 300), rng.choice([1, 2, 5])))
+            pl = w.plasma(comp, st['ne'], st['te'])
+            ad = w.MockAD(par, has=has, gaunt=g)
+            cfg = dict(default=True, rtol=1e-5, user_gaunt=None, lineshape='rec')
+            if kind == 'brems':
+                # at least two default-constructed (no integrator argument) instances per case; sometimes an explicit one
+                if j >= 2 or (j == 1 and rng.random() < 0.3):
+                    cfg.update(default=False, rtol=rng.choice([1e-3, 1e-7]))
+                if rng.random() < 0.3:
+                    cfg['user_gaunt'] = (1.25, 0.0, 0.0, 0.0)
+                model = build_model(w, kind, le, lc, tr, pl, ad, gaunt=cfg['user_gaunt'],
+                                    integrator=None if cfg['default'] else GaussianQuadrature(relative_tolerance=cfg['rtol']))
+            elif kind in ('exc', 'rec', 'cx'):
+                if j == k_inst - 1 and rng.random() < 0.5:
+                    cfg.update(default=True, lineshape='gaussian')           # default-constructed: GaussianLine
+                model = build_model(w, kind, le, lc, tr, pl, ad, lineshape=cfg['lineshape'])
+            else:
+                model = build_model(w, kind, le, lc, tr, pl, ad)
+            inst.append((model, st, cfg, pl, ad))
+        order = [j for _ in range(2) for j in range(k_inst)]
+        rng.shuffle(order)
+        if rng.random() < 0.5:
+            order = list(range(k_inst)) + order          # oldest first right after the newest was constructed
+        for step, j in enumerate(order):
+            model, st, cfg, pl, ad = inst[j]
+            base = rng.choice([0.0, 0.5])
+            desc = dict(model=name, stream='multi-instance', instance=j, instances=k_inst, evaluation_order=order[:step + 1], config=cfg,
+                        incoming_spectrum=base, line=dict(element=tr_constants.ELEMENT_IDS[st['le']], charge=st['lc'], transition=TRANSITIONS[st['tr']]),
+                        ne=st['ne'], te=st['te'], rate_par=st['par'], rates_present=st['has'], gaunt=st['gaunt'], window=st['window'],
+                        composition=comp_desc(w, st['comp']))
+            if cfg['lineshape'] == 'gaussian':
+                # default line shape: the wavelength-integrated spectrum over a wide window is the documented radiance (C02)
+                wl = ad.wavelength(w.elements[st['le']], st['lc'], TRANSITIONS[st['tr']])
+                sp = w.Spectrum(wl - 40.0, wl + 40.0, 4000)
+                sp.samples[:] = base
+                stt, res = call(model.emission, w.Point3D(0, 0, 0), w.Vector3D(0, 0, 1), sp)
+                kk = kind
+                want = doc_cx(w, st['par'], st['comp'], st['ne'], st['te'], st['le'], st['lc'], st['tr']) if kk == 'cx' else \
+                    doc_line(st['par'], kk, st['comp'], st['ne'], st['te'], st['le'], st['lc'], st['tr'], st['lc'] if kk == 'exc' else st['lc'] + 1)
+                tot = float(np.sum(sp.samples - base)) * float(sp.delta_wavelength) if stt == 'ok' else None
+                ok = (stt == 'RuntimeError') if want is None else (stt == 'ok' and close(tot, want, 1e-6, 1e-9 * abs(base) * 80.0 + 1e-300))
+                got = stt if stt != 'ok' else [tot]
+                ctx.count('multi-instance:%s:default-lineshape' % kind)
+            else:
+                got, kline, want, floor = reeval_state(w, kind, model, st, cfg['user_gaunt'], base=base, rtol=cfg['rtol'])
+                K.add('multi-instance:' + kind, kline, got, desc, floor=floor)
+                ok = reeval_ok(kind, got, want, floor, cfg['rtol'])
+                ctx.count('multi-instance:%s:%s' % (kind, 'default' if cfg['default'] else 'explicit'))
+            ctx.case(key=('multi-instance', kind, it, step) if not isinstance(got, str) else None,
+                     sample=desc if (it < 5 and step == 1 and kind == 'brems') else None)
+            if not ok:
+                ctx.fail('C03:%s.emission:multi-instance:differs-from-own-documented-expression' % name,
+                         '%s instance %d of %d (evaluation order %r): %r, its documented value %r'
+                         % (name, j, k_inst, order[:step + 1], got if isinstance(got, str) else got[:3], want if not isinstance(want, list) else want[:3]), desc)
+                break
+
 # ------------------------------------------------------------------------------------------------------------------
 def compare(ctx, K, outs):
     for line, obs, (kind, desc, floor), o in zip(K.lines, K.obs, K.meta, outs):
@@ -1169,7 +1375,10 @@ def run(ctx):
                 'of the line element), densities/temperatures incl. 0, -0.0 and negative, mock rates distinct per (accessor, element, charge, donor, '
                 'transition) and dependent on evaluate() arguments, incl. zero/negative/None coefficients; a case is distinct by (model, line, set of '
                 'species keys, guard class) and non-trivial when the model actually emits (no guard fired); re-evaluation stream: the same model object '
-                'is evaluated fresh and again after each of provider swap / species density change / composition replacement / electron change (random order)')
+                'is evaluated fresh and again after each of provider swap / species density change / composition replacement / electron change (random order); '
+                'multi-point stream: one instance over tabulated non-uniform profiles (each species / electrons / temperatures independently '
+                'positive, 0 or negative per point), points revisited in random order, non-empty incoming spectrum; multi-instance stream: 2-3 live '
+                'models of one kind (default-constructed and explicit) on different plasmas/providers evaluated interleaved')
     ctx.trusted += ['pi, sqrt, exp, log, log10 are parameters of the model (libm at Float); the provider rate functions, the Gaunt-factor '
                     'interpolator (raysect Interpolator2DArray) and the Gauss-Legendre nodes (scipy roots_legendre) are parameters',
                     'hand-written CODATA-2018 table lean/Cherab/Model/Codata.lean (and its copy in harness/props/c03.py)',
@@ -1195,6 +1404,8 @@ def run(ctx):
     run_radfn(ctx, w, K, ctx.n(60, 600))
     run_end_to_end(ctx, w, ctx.n(4, 40))
     run_reeval(ctx, w, K, ctx.n(250, 4000))
+    run_multipoint(ctx, w, K, ctx.n(200, 3000))
+    run_multi_instance(ctx, w, K, ctx.n(150, 2500))
     outs = ctx.driver(K.lines)
     ctx.traces = len(K.lines)
     compare(ctx, K, outs)
